@@ -184,6 +184,34 @@ pub fn sample_alphabet(run: &Run, sc: &Scenario) {
     let _ = PoolKey::new(Denom::Mel, Denom::Sym);
 }
 
+/// The repository's own standard genesis configurations (mainnet, testnet): nobody here holds the keys of their coins, so the
+/// histories are empty blocks with and without proposer actions (peg, subsidy, fee pool decay and rewards under the real parameters).
+pub fn run_std_genesis(run: &Run, depth: usize) {
+    for (name, cfg) in [("std-mainnet", melstf::GenesisConfig::std_mainnet()), ("std-testnet", melstf::GenesisConfig::std_testnet())] {
+        let db = new_db();
+        let net = cfg.network;
+        let built = crate::guard::guard(|| cfg.realize(&db).seal(None));
+        let s = match built {
+            Ok(s) => s,
+            Err(p) => {
+                run.violation("C09", format!("std-genesis/{}", p.class()), format!("sealing the {} genesis panicked: {}", name, p.msg), json!({"genesis": name}));
+                continue;
+            }
+        };
+        let model = model_of(&s, &[CoinID::zero_zero()], &builtin_pool_keys(), &[]);
+        let h0 = s.header();
+        let rootn = Node::new_root(Real::Sealed(s), model, format!("genesis[{}]", name), json!({"root": name}), vec![h0]);
+        let eng = Engine::new(run);
+        let mut cfg = AlphaCfg::base();
+        cfg.seal_actions = vec![None, Some(crate::alphabet::action_dest(1)), Some(melstructs::ProposerAction { fee_multiplier_delta: -128, reward_dest: addr_true() }), Some(melstructs::ProposerAction { fee_multiplier_delta: 127, reward_dest: addr_true2() })];
+        let acts = move |n: &Node| actions(n, &cfg);
+        let visit = |_n: &Node| {};
+        let st = bfs(&eng, vec![rootn], depth, 200_000, &acts, &visit);
+        run.set(&format!("scenario:{}", name), json!({"network": format!("{:?}", net), "depth_bound_completed": st.depth_completed, "unique_states": st.states, "transitions": st.transitions}));
+        println!("  scenario {}: depth {} states {} transitions {}", name, st.depth_completed, st.states, st.transitions);
+    }
+}
+
 /// The same alphabet and depth over the other genesis configurations.
 pub fn genesis_scenarios(names: [&'static str; 3], net: NetID, cfg: &AlphaCfg, depth: usize) -> Vec<Scenario> {
     (1u8..=3)
